@@ -87,7 +87,8 @@ VARIABLES kv,       \* the shared store: a function from a finite set of byte se
           bulk,     \* bulk[p] = number of filler keys under Fat(p) (0: none; > 0 iff Fat(p) \in DOMAIN kv)
           closed,   \* prefixes on whose kept object Close() was called
           obj,      \* obj[p] = what the kept object of p has been through: calls, largest removal (-1: none)
-          path,     \* hist: <<prefix under test>> \o the names of the calls made (step.path: this call included)
+          path,     \* hist: <<prefix under test>> \o the names of the calls made (step.path: this call included);
+                    \* walk: <<the prefix half of the calls go to>>
           n,        \* operations done
           step      \* output only
 vars == <<kv, bulk, closed, obj, path, n, step>>
@@ -339,7 +340,7 @@ KeySets(K, sz) == {{}} \cup (IF sz = 0 THEN {} ELSE {{t[i] : i \in 1..sz} : t \i
 
 NewObj == [p \in Stores |-> [calls |-> 0, rm |-> -1]]
 
-Init == /\ CASE Mode = "walk"  -> kv = EmptyKV /\ closed = {} /\ path = <<>>
+Init == /\ CASE Mode = "walk"  -> kv = EmptyKV /\ closed = {} /\ path \in {<<p>> : p \in Stores}
              [] Mode = "hist"  -> kv = HistKV /\ closed = {} /\ path \in {<<p>> : p \in HistStores}
              [] Mode = "cases" -> /\ kv \in {[k \in S |-> 1] : S \in KeySets(Seqs(InitKeyLen), MaxInitKeys)}
                                   /\ closed \in {{}} \cup {{p} : p \in Stores}
@@ -371,16 +372,20 @@ Do(op) == /\ n < MaxSteps
 R(S) == RandomElement(S)
 Which == <<"kept", "kept", "kept", "fresh">>
 RO(d) == Which[R(1..4)]
+\* half of the calls of a walk go to one prefix (path[1], drawn with the initial state): its kept object
+\* gets a history of a dozen calls; a bound is nil one time out of three (no range at all: one Iter out of nine)
+RP(d) == IF R(1..2) = 1 THEN path[1] ELSE R(Stores)
+RB(d) == IF R(1..3) = 1 THEN Nil ELSE R(Seqs(BoundLen))
 RandomOp(kd) ==
-  CASE kd = "Put"    -> [a |-> "Put", p |-> R(Stores), o |-> RO(0), k |-> R(UKeys), v |-> R(Values)]
-    [] kd \in {"Get", "Exists", "Delete"} -> [a |-> kd, p |-> R(Stores), o |-> RO(0), k |-> R(UKeys)]
-    [] kd = "Iter"   -> [a |-> "Iter", p |-> R(Stores), o |-> RO(0), s |-> R(Bounds), l |-> R(Bounds), asc |-> R(BOOLEAN), stop |-> R(Stops)]
-    [] kd = "Batch"  -> [a |-> "Batch", p |-> R(Stores), o |-> RO(0), b |-> IF R(BOOLEAN) THEN <<R(BatchOps)>> ELSE <<R(BatchOps), R(BatchOps)>>]
-    [] kd = "Fill"   -> LET c == R(Sizes) IN [a |-> "Fill", p |-> R(Stores), o |-> RO(0), c |-> c, n |-> SizeOf(c)]
-    [] kd \in {"Remove", "Close"} -> [a |-> kd, p |-> R(Stores), o |-> RO(0)]
+  CASE kd = "Put"    -> [a |-> "Put", p |-> RP(0), o |-> RO(0), k |-> R(UKeys), v |-> R(Values)]
+    [] kd \in {"Get", "Exists", "Delete"} -> [a |-> kd, p |-> RP(0), o |-> RO(0), k |-> R(UKeys)]
+    [] kd = "Iter"   -> [a |-> "Iter", p |-> RP(0), o |-> RO(0), s |-> RB(0), l |-> RB(0), asc |-> R(BOOLEAN), stop |-> R(Stops)]
+    [] kd = "Batch"  -> [a |-> "Batch", p |-> RP(0), o |-> RO(0), b |-> IF R(BOOLEAN) THEN <<R(BatchOps)>> ELSE <<R(BatchOps), R(BatchOps)>>]
+    [] kd = "Fill"   -> LET c == R(Sizes) IN [a |-> "Fill", p |-> RP(0), o |-> RO(0), c |-> c, n |-> SizeOf(c)]
+    [] kd \in {"Remove", "Close"} -> [a |-> kd, p |-> RP(0), o |-> RO(0)]
     [] kd = "RawPut" -> [a |-> "RawPut", k |-> R(Seqs(InitKeyLen)), v |-> R(Values)]
     [] kd = "RemoveByPrefix" -> [a |-> "RemoveByPrefix", p |-> R(RPrefixes)]
-    [] kd = "BatchRemove"    -> [a |-> "BatchRemove", s |-> R(Bounds), l |-> R(Bounds), lim |-> R(Limits)]
+    [] kd = "BatchRemove"    -> [a |-> "BatchRemove", s |-> RB(0), l |-> RB(0), lim |-> R(Limits)]
 
 \* writes are drawn more often than the rest, Close rarely
 WalkKinds == <<"Put", "Put", "Put", "RawPut", "RawPut", "Batch", "Get", "Exists", "Delete", "Iter", "Iter", "Iter",
@@ -396,10 +401,10 @@ HistNext == \E t \in HistKinds :
               /\ path' = Append(path, t)
               /\ Do(HistOp(path[1], t))
 
-Next == /\ n < MaxSteps
-        /\ CASE Mode = "walk"  -> UNCHANGED path /\ \E op \in {RandomOp(WalkKinds[R(1..Len(WalkKinds))])} : Do(op)
-             [] Mode = "hist"  -> HistNext
-             [] Mode = "cases" -> UNCHANGED path /\ \E op \in Ops : Do(op)
+WalkNext  == Mode = "walk"  /\ UNCHANGED path /\ \E op \in {RandomOp(WalkKinds[R(1..Len(WalkKinds))])} : Do(op)
+CasesNext == Mode = "cases" /\ UNCHANGED path /\ \E op \in Ops : Do(op)
+
+Next == n < MaxSteps /\ (CasesNext \/ (Mode = "hist" /\ HistNext) \/ WalkNext)
 
 Spec == Init /\ [][Next]_vars
 
